@@ -15,7 +15,7 @@ NAMINGS = [((), False), ((), True), (('M',), False), (('S', 'L'), False), (('L',
 # out-of-quantifier probes (ties in length): last one wins in the implementation and in the model
 TIE_NAMINGS = [(('M', 'N'), False), (('N', 'M'), False), (('M', 'N', 'S'), False)]
 
-PREFIXES = [None, '', 'pre_', 'é-', 'm-', 's', 'long name of ']   # the last three are prefixes OF some canonical names (classes M, S, L)
+PREFIXES = [None, '', 'pre_', 'é-', 'm-', 's', 'long name of ', '{ ', '}}x{{']   # the last three are prefixes OF some canonical names (classes M, S, L)
 
 
 def lit(cls, ident, k):
